@@ -43,7 +43,14 @@ func verifC06Fault(nExt int, who int) {
 	var responses, initErrors []posted
 	faultSeq := 0 // ghost: when the fault happened
 	initErrPayload := `{"errorMessage":"boom","errorType":"Runtime.InitBoom"}`
-	slowRuntime := who == 1 && (point == 2 || point == 4) && verifChoice(2, "the function is still running when the extension fails") == 1
+	// 0: the function finishes at once; 1: it is still running when the extension fails and never
+	// answers; 2: it is still running and posts its response after the fault (the platform error
+	// may already have been sent for that id)
+	runtimeMode := 0
+	if who == 1 && (point == 2 || point == 4) {
+		runtimeMode = verifChoice(3, "the function when the extension fails")
+	}
+	slowRuntime := runtimeMode != 0
 	healthy := func(api *rapid.VerifRuntimeAPI, tag string) {
 		for i := 0; i < 6; i++ {
 			st, id, _ := api.Next()
@@ -53,8 +60,19 @@ func verifC06Fault(nExt int, who int) {
 			p := fmt.Sprintf("ok-%s-%d", tag, i)
 			if slowRuntime && tag == "0" && i == 0 {
 				// the function is still running when the extension fails
-				verifWaitUntil(func() bool { return api.Dead() })
-				return
+				if runtimeMode == 1 {
+					verifWaitUntil(func() bool { return api.Dead() })
+					return
+				}
+				// the platform notices the fault and answers the caller first; then the
+				// function's own (late) response for the same id arrives
+				verifWaitUntil(func() bool {
+					return api.Dead() || (faultSeq > 0 && f.s.invokeCtx != nil && f.s.invokeCtx.ReplySent)
+				})
+				if api.Dead() {
+					return
+				}
+				verifReach("late-response-after-fault")
 			}
 			if st, _ := api.Response(id, []byte(p)); st == 202 {
 				responses = append(responses, posted{w.Seq(), p})
